@@ -235,5 +235,101 @@ theorem firstSets_closed {c : Ctx} {fuel : Nat} {fm : List FirstSet} (h : firstS
   | false => exact Or.inl rfl
   | true => exact Or.inr (h2 hn)
 
+/-! ### every terminal in a FIRST set is a terminal of the grammar -/
+
+/-- terminals of the coded grammar are below `nT` (established by `Encode`) -/
+def CtxWF (c : Ctx) : Prop := ∀ r ∈ c.g.rules, ∀ a, Sym.t a ∈ r.rhs → a < c.nT
+
+def FmBound (nT : Nat) (fm : List FirstSet) : Prop := ∀ f ∈ fm, ∀ a ∈ f.terminals, a < nT
+
+theorem seqTerms_bound {nT : Nat} {fm : List FirstSet} (hb : FmBound nT fm) :
+    ∀ (β : List (Sym Nat Nat)), (∀ a, Sym.t a ∈ β → a < nT) → ∀ x ∈ seqTerms (toTbl fm) β, x < nT := by
+  intro β
+  induction β with
+  | nil => intro _ x hx; simp [seqTerms] at hx
+  | cons X rest ih =>
+    intro hβ x hx
+    cases X with
+    | t a =>
+      simp only [seqTerms, List.mem_singleton] at hx
+      subst hx
+      exact hβ x List.mem_cons_self
+    | n b =>
+      simp only [seqTerms, List.mem_append] at hx
+      have hrest : ∀ a, Sym.t a ∈ rest → a < nT := fun a ha => hβ a (List.mem_cons_of_mem _ ha)
+      cases hb' : fm[b]? with
+      | none =>
+        have : (toTbl fm).getD b ([], false) = ([], false) := by
+          unfold toTbl
+          rw [List.getD_eq_getElem?_getD, List.getElem?_map, hb']; rfl
+        rw [this] at hx
+        simp at hx
+      | some f =>
+        rw [toTbl_getD fm b f hb'] at hx
+        rcases hx with hx | hx
+        · exact hb f (List.mem_of_getElem? hb') x hx
+        · split at hx
+          · exact ih hrest x hx
+          · cases hx
+
+theorem expandRule_bound {nT : Nat} {fm fm' : List FirstSet} {r : Rule Nat Nat} {ch : Bool} (hb : FmBound nT fm)
+    (hr : ∀ a, Sym.t a ∈ r.rhs → a < nT) (h : expandRule fm r = some (fm', ch)) : FmBound nT fm' := by
+  unfold expandRule at h
+  split at h
+  · rename_i cur old hcur hold
+    simp only [addAll] at h
+    cases h
+    obtain ⟨hmem, _⟩ := currentFirst_spec fm r.rhs _ cur hcur
+    intro f hf a ha
+    rcases set_mem hf with rfl | hf
+    · simp only at ha
+      rcases (Oset.mem_extend _ _ a).mp ha with h1 | h1
+      · exact hb old (List.mem_of_getElem? hold) a h1
+      · rcases (hmem a).mp h1 with h2 | h2
+        · cases h2
+        · exact seqTerms_bound hb r.rhs hr a h2
+    · exact hb f hf a ha
+  · cases h
+
+theorem expand_bound {nT : Nat} : ∀ (rules : List (Rule Nat Nat)) (fm fm' : List FirstSet) (ch ch' : Bool),
+    FmBound nT fm → (∀ r ∈ rules, ∀ a, Sym.t a ∈ r.rhs → a < nT) → expand rules fm ch = some (fm', ch') → FmBound nT fm' := by
+  intro rules
+  induction rules with
+  | nil => intro fm fm' ch ch' hb _ h; simp only [expand] at h; cases h; exact hb
+  | cons r rs ih =>
+    intro fm fm' ch ch' hb hr h
+    simp only [expand] at h
+    split at h
+    · cases h
+    · rename_i fm1 ch1 h1
+      exact ih fm1 fm' _ ch' (expandRule_bound hb (hr r List.mem_cons_self) h1)
+        (fun r' hr' => hr r' (List.mem_cons_of_mem _ hr')) h
+
+theorem firstLoop_bound {nT : Nat} (rules : List (Rule Nat Nat)) (hr : ∀ r ∈ rules, ∀ a, Sym.t a ∈ r.rhs → a < nT) :
+    ∀ (fuel : Nat) (fm0 fm : List FirstSet), FmBound nT fm0 → firstLoop rules fuel fm0 = some (some fm) → FmBound nT fm := by
+  intro fuel
+  induction fuel with
+  | zero => intro fm0 fm _ h; simp [firstLoop] at h
+  | succ k ih =>
+    intro fm0 fm hb h
+    simp only [firstLoop] at h
+    split at h
+    · cases h
+    · rename_i fm1 ch hexp
+      have hb1 := expand_bound rules fm0 fm1 false ch hb hr hexp
+      split at h
+      · exact ih fm1 fm hb1 h
+      · cases h; exact hb1
+
+theorem firstSets_bound {c : Ctx} (hwf : CtxWF c) {fuel : Nat} {fm : List FirstSet}
+    (h : firstSets c fuel = some (some fm)) : FmBound c.nT fm := by
+  unfold firstSets at h
+  refine firstLoop_bound _ hwf _ _ _ ?_ h
+  intro f hf a ha
+  unfold emptyFirst at hf
+  have := List.eq_of_mem_replicate hf
+  subst this
+  cases ha
+
 end Machine
 end KikiVerif
